@@ -566,8 +566,9 @@ def minimize_lbfgsb(
                 # Reboot BFGS-Hessian
                 mats = LBFGSB_MATRICES(n)
         else:
-            # x update
-            x += steplength * d
+            # x update (projected: the same point as the one evaluated by the line
+            # search, and never outside the box by rounding)
+            np.clip(x + steplength * d, lb, ub, out=x)
 
             # new evaluation -> normally, the function has been updated in
             # the linesearch step
